@@ -117,7 +117,7 @@ def run(ctx):
             continue
         if o.kind == "display" and isinstance(o.node, ast.List) \
                 and not o.node.elts and o.fi is not None \
-                and o.fi.qualname in (MT + ".BaseMatcher.__init__",
+                and m.owner(o.fi).qualname in (MT + ".BaseMatcher.__init__",
                                       MT + ".SchemaMatcher.__init__"):
             displays.add(o.fi.qualname)
             continue
